@@ -18,6 +18,8 @@ def gen_split(rng, n, tier):
     for _ in range(n):
         k = rng.randint(1, 25)
         out.append({'marks': [rng.choice([0, 0, 0, 1, 1, 2, None]) for _ in range(k)]})
+        if rng.random() < 0.3:                       # fixes whose altitude (or northing) is unknown: the pieces are made of observations, whatever their coordinates
+            out[-1]['nanz'] = sorted(rng.sample(range(k), rng.randint(1, min(3, k)))); out[-1]['nanc'] = rng.choice(['z', 'z', 'y'])
     return out
 
 
@@ -27,7 +29,8 @@ def run_split(case):
     sg = sys.modules['tracklib.algo.segmentation']
     marks = case['marks']
     n = len(marks)
-    tr = Track([Obs(ENUCoords(i, 0, 0), ObsTime.readUnixTime(i)) for i in range(n)])
+    nz = set(case.get('nanz') or ()); nc = case.get('nanc', 'z')
+    tr = Track([Obs(ENUCoords(i, nan if (i in nz and nc == 'y') else 0, nan if (i in nz and nc == 'z') else 0), ObsTime.readUnixTime(i)) for i in range(n)])
     if n:
         tr.createAnalyticalFeature('m', [nan if v is None else float(v) for v in marks])
     else:
